@@ -781,7 +781,7 @@ KNOWN = {
 
 def make_behaviours(prop, tier, rng, wd):
     spec = PROPS[prop]
-    nsim = {"quick": 160, "thorough": 2400}[tier]
+    nsim = {"quick": 160, "thorough": 1600}[tier]
     depth = {"quick": 26, "thorough": 34}[tier]
     res = []  # (shape, trunc, ops, origin)
     sd = rng.randint(1, 10 ** 6)
